@@ -296,6 +296,8 @@ func (g *Genome) mutateAddLink(innovations InnovationsObserver, generation int, 
 		// Now add the new Gene to the Genome
 		if gene != nil {
 			g.geneInsert(gene)
+			// the network expressed above predates the new gene - drop it to avoid a stale phenotype being cached
+			g.Phenotype = nil
 		}
 	}
 
